@@ -186,6 +186,8 @@ class NDArray:
         self.dtype, self.fn, self.kind = dtype, fn, kind
         self.version = 0
         self.perm = None        # (p, q, n, lo): this int array is p[lo : lo+len] of a permutation p of [0,n) with inverse q
+        self.win = None         # (base fn, row offset, column offset): ghost, see getitem
+        self.origin = None      # (root fn, row map, column offset): ghost, self[i, k] == root(rowmap(i), k + cofs)
 
     @property
     def rank(self):
@@ -196,7 +198,7 @@ class NDArray:
 
     def copy(self):
         r = NDArray(self.shape, self.dtype, self.fn)
-        r.perm = self.perm
+        r.perm, r.win, r.origin = self.perm, self.win, self.origin
         return r
 
     def row(self, i):
@@ -661,7 +663,17 @@ def getitem(it, a, idx):
         k, mp = s1[1], s0[2]
         return NDArray((s0[1],), a.dtype, lambda t: f(mp(t), k))
     m0, m1 = s0[2], s1[2]
-    return NDArray((s0[1], s1[1]), a.dtype, lambda t, k: f(m0(t), m1(k)))
+    r = NDArray((s0[1], s1[1]), a.dtype, lambda t, k: f(m0(t), m1(k)))
+    if s1[4] is not None:
+        # ghost: every row of r is (a column window of) a row of the root array: r[t, k] == root(rowmap(t), k + cofs)
+        root, rmap, cofs = a.origin if a.origin is not None else (f, (lambda t: t), 0)
+        r.origin = (root, (lambda t, rmap=rmap, m0=m0: rmap(m0(t))), norm(z3.simplify(zi(cofs) + zi(s1[4]))))
+    if s0[4] is not None and s1[4] is not None:
+        # ghost: a rectangular window of a base array, r[t, k] == base(t + rlo, k + clo)  (lets contracts quantify over
+        # the base indices instead of shifted ones)
+        base, rlo, clo = a.win if a.win is not None else (f, 0, 0)
+        r.win = (base, norm(z3.simplify(zi(rlo) + zi(s0[4]))), norm(z3.simplify(zi(clo) + zi(s1[4]))))
+    return r
 
 
 def setitem(it, a, idx, v):
@@ -712,7 +724,7 @@ def setitem(it, a, idx, v):
         pos = _index(it, idx, n)
         a.fn = lambda j: z3.If(j == pos, sv, old(j))
     a.version += 1
-    a.perm = None
+    a.perm = a.win = a.origin = None
     return True
 
 
@@ -761,6 +773,7 @@ def searchsorted(it, a, v, side='left'):
     else:
         body = lambda t: z3.If(t < s, xreal.lt(g(t), vz), xreal.le(vz, g(t)))
     fact(run, QA(n, lambda t: z3.Implies(z3.And(z3.Not(xreal.is_nan(g(t))), z3.Not(xreal.is_nan(vz))), body(t))))
+    run.__dict__.setdefault('np_searchsorted', []).append((a, vz, s, side))
     return s
 
 
@@ -1148,7 +1161,7 @@ def _fresh_like(it, v, name):
         f = fresh_fn(it.run, name, v.rank, SORTS[v.dtype])
         v.fn = lambda *i: f(*i)
         v.version += 1
-        v.perm = None
+        v.perm = v.win = v.origin = None
         if v.kind == 'list':
             n = it.run.fresh(name + '_n', z3.IntSort())
             it.run.assume(n >= 0)
@@ -1160,7 +1173,7 @@ def _fresh_like(it, v, name):
 def _snapshot(v):
     if isinstance(v, NDArray):
         r = NDArray(v.shape, v.dtype, v.fn, v.kind)
-        r.perm = v.perm
+        r.perm, r.win, r.origin = v.perm, v.win, v.origin
         return r
     return _orig_snapshot(v)
 
@@ -1293,3 +1306,20 @@ def _iterate_range(it, v):
 
 
 M.iterate_hook = _iterate_range
+
+
+# ---- round(x) of a symbolic float: name the result (the banker's-rounding term is large; naming it keeps quantifier
+#      bounds and path conditions small).  Semantics unchanged: r == <the term computed by models.b_round>.
+_orig_round = M.BUILTINS['round'].fn
+
+
+def _b_round(it, args, kw):
+    r = _orig_round(it, args, kw)
+    if z3.is_expr(r) and not it.pure and r.sort() == z3.IntSort() and not z3.is_const(r) and conc(r) is None:
+        c = it.run.fresh('rounded', z3.IntSort())
+        it.run.assume(c == r)
+        return c
+    return r
+
+
+M.BUILTINS['round'] = Builtin('round', _b_round)
